@@ -130,15 +130,18 @@ CLAIMED = {
              "real values and packets).",
         design="§7 C20", technique="Lean 4 proof (reconstruction protocol model) + operation-table correspondence on the real classes"),
     "C18": dict(
-        text="rows_per_apid / create_rows (the rows of an APID are the cells of that APID's packets in stream order, files in the "
-             "order given: the accumulation loop equals a filter of the concatenated packet list), rejects_mixed (differing field "
+        text="rows_per_apid / create_rows (the rows of an APID are those of that APID's packets in stream order, files in the "
+             "order given: the accumulation loop equals a filter of the concatenated packet list; the first packet fixes the "
+             "column order and every later packet contributes its values by column name - alignRow_by_name, alignRow_self - so "
+             "packets listing the same fields in another order are one field set), rejects_mixed (differing field "
              "sets are rejected), fits_unsigned / fits_signed (the dtype requested for an uncalibrated integer encoding of <= 64 "
              "bits holds every value the encoding produces), rep_of_decode / ieee_fits / mil_fits (the float dtype chosen — float32 "
              "only for IEEE 32-bit fields, float64 for 16/64-bit IEEE and for MIL-STD-1750A — contains every finite value the "
              "encoding decodes to, as m*2^e within the format's precision and exponent range), enum_is_str. PARTIAL: numpy's array conversion and xarray's Dataset "
              "are outside the model; that each stored cell equals the parsed value is observed by the correspondence on real "
-             "datasets (dtype and every cell compared). Two recorded open findings (NUL stripping in bytes/str columns; raw "
-             "string buffers stored through a 'str' dtype) are reported as KNOWN-FINDING and any other difference is a violation.",
+             "datasets (dtype and every cell compared). Five recorded open findings (NUL stripping in bytes/str columns; raw "
+             "string buffers stored through a 'str' dtype; rounding of context-only columns; integers wider than 64 bits; "
+             "booleans on text encodings) are reported as KNOWN-FINDING and any other difference is a violation.",
         design="§7 C18", technique="Lean 4 proof (fold = filter; range arithmetic) + cell-by-cell correspondence on real datasets"),
     "C16": dict(
         text="Proved for the whole loader model: load_ignores_comments (loadXtce on a document and on the document with every "
